@@ -338,3 +338,21 @@ M('c13-secure-filename-truncated-through-local', 'C13', 'R10', SYNC, _SECURE,
 M('c13-secure-filename-result-truncated', 'C13', 'R10', SYNC, _SECURE, "            return misc.secure_filename(self.filename or '')[:32]\n")
 # negative controls verified by hand with --root (silent): `misc.secure_filename(self.filename)`; `name = self.filename` / `if not name: name = ''`;
 # `self.filename if self.filename else ''`; `from falcon.util.misc import secure_filename as _sf` + `_sf(self.filename or '')`; result through a local
+
+# ---------------------------------------------------- R15 / R16 the readers' cursor (shared with C14 R8 / R9; seeded changes s10-c13-1 / s10-c13-3)
+_AR = 'falcon/asgi/reader.py'
+_SR = 'falcon/util/reader.py'
+_FOUND = ("                    self._buffer_pos = offset + pos\n                    # PERF(vytas): local1 + local2 is faster than self._attr\n"
+          "                    #   (still true on CPython 3.8)\n                    yield self._buffer[: offset + pos]\n                    return\n")
+# the seed: the cursor is moved only after the consumer resumed the generator (a part that is not read to its end leaves it behind)
+M('c13-async-straddling-delimiter-cursor-after-yield', 'C13', 'R15', _AR, _FOUND,
+  "                    pos += offset\n                    yield self._buffer[:pos]\n                    self._buffer_pos = pos\n                    return\n", also=('C14',))
+# variant: the cursor forgets the offset of the searched fragment
+M('c13-async-straddling-delimiter-cursor-without-offset', 'C13', 'R15', _AR, _FOUND,
+  "                    self._buffer_pos = pos\n                    yield self._buffer[: offset + pos]\n                    return\n", also=('C14',))
+# the seed: readline() fabricates the newline and bumps the cursor blindly
+M('c13-sync-readline-fabricates-newline', 'C13', 'R16', _SR, "            return result + self.read(1)\n",
+  "            self._buffer_pos += 1\n            return result + b'\\n'\n", also=('C14',))
+# variant: the bump alone (the newline is then delivered twice)
+M('c13-sync-readline-bumps-cursor-and-reads', 'C13', 'R16', _SR, "            return result + self.read(1)\n",
+  "            self._buffer_pos += 1\n            return result + self.read(1)\n", also=('C14',))
